@@ -27,7 +27,7 @@ import (
 	"verif/checks/c07/kc"
 )
 
-const rule = "enc/v1: documents are built by a small encoder written from the scheme's README (fixed file key and nonce prefix, checked once against kit's Decrypt). Decrypt (output stream read to the end) on EVERY truncation and 5 single-byte mutation classes at every position of 4 valid short documents x 3 reader styles x 2 key-name options x 4 UnwrapKeyFn behaviours; on every sequence of <= 3 header lines (thorough 4) from a line alphabet, with and without a final newline, with and without a body; on a correctly MAC'd header around EVERY manifest of the product of member alphabets (k x kw x wfk x cph x np); on valid headers followed by bodies cut or mutated at every position (short bodies) and at every position within 18 bytes of a segment boundary (1- and 2-segment bodies). Encrypt on the product of option alphabets x plaintext sizes x reader styles. Manifest / Cipher / KeyAlgorithm: json.Unmarshal, UnmarshalJSON, MarshalJSON, Validate, ID, New*FromID on token alphabets. A panic in the background goroutine kills the worker subprocess and is attributed through the in-flight marker. non-trivial = the call returned a nil error."
+const rule = "enc/v1: documents are built by a small encoder written from the scheme's README (fixed file key and nonce prefix, checked once against kit's Decrypt). Decrypt (output stream read to the end) on EVERY truncation and 5 single-byte mutation classes at every position of 4 valid short documents x 3 reader styles x 2 key-name options x 4 UnwrapKeyFn behaviours; on every sequence of <= 3 header lines (thorough 4) from a line alphabet, with and without a final newline, with and without a body; on a correctly MAC'd header around EVERY manifest of the product of member alphabets (k x kw x wfk x cph x np); on valid headers followed by bodies cut or mutated at every position (short bodies) and at every position within 18 bytes of a segment boundary (1- and 2-segment bodies). thorough: every pair of header positions mutated together (3x3 classes) on two documents. Encrypt on the product of option alphabets x plaintext sizes x reader styles. Manifest / Cipher / KeyAlgorithm: json.Unmarshal, UnmarshalJSON, MarshalJSON, Validate, ID, New*FromID on token alphabets. A panic in the background goroutine kills the worker subprocess and is attributed through the in-flight marker. non-trivial = the call returned a nil error."
 
 // ---- reference encoder (from schemes/enc/v1/README.md) ---------------------------
 
@@ -253,7 +253,37 @@ func areas(thorough bool) []*guard.Area {
 			panic("reference document " + d.name + " is not accepted by kit: " + err.Error())
 		}
 	}
-	return []*guard.Area{docBytesArea(ds), linesArea(thorough), manifestArea(), bodyArea(thorough), encryptArea(), jsonTypesArea()}
+	as := []*guard.Area{docBytesArea(ds), linesArea(thorough), manifestArea(), bodyArea(thorough), encryptArea(), jsonTypesArea()}
+	if thorough {
+		as = append(as, doubleArea(ds[0]), doubleArea(ds[1]))
+	}
+	return as
+}
+
+// doubleArea: every pair of header positions mutated together (thorough only).
+func doubleArea(d doc) *guard.Area {
+	kinds := []int{1, 3, 5} // set00, inc, flip01
+	return &guard.Area{
+		Name: "encv1-header-double-mutations/" + d.name, Chunks: d.hdr,
+		Bound: fmt.Sprintf("every pair of positions p<q of the %d-byte header of %s, each mutated with one of {set00, inc, flip01} (9 combinations per pair), bytes.Reader, unwrap returns the file key", d.hdr, d.name),
+		Run: func(c *guard.Ctx, p int) {
+			for _, k1 := range kinds {
+				v1, ok := variant(d.b, p, k1)
+				if !ok {
+					continue
+				}
+				for q := p + 1; q < d.hdr; q++ {
+					for _, k2 := range kinds {
+						v2, ok := variant(v1, q, k2)
+						if !ok {
+							continue
+						}
+						decrypt(c, fmt.Sprintf("doc=%s var=%s@%d+%s@%d", d.name, mutNames[k1], p, mutNames[k2], q), v2, "bytes.Reader", "", "file key")
+					}
+				}
+			}
+		},
+	}
 }
 
 const posPerChunk = 24
